@@ -78,13 +78,12 @@ type c07Witness struct {
 func init() {
 	core.Register(&core.Check{
 		ID:   "C07",
-		Rule: "exhaustive over: operation security in 11 shapes (absent, [], [{}], single, conjunction, alternatives, undeclared scheme, mixes) x document security in 6 shapes x 4 callback outcome assignments (A,B ok/fail) x parameter layout (none / operation overrides path-level query q with another type / operation declares q in another location) x renderings good/bad/absent of path-level q (query), path-level X-H (header, required), operation r (query, required) x body good/bad/absent x body required or not x 7 option sets (default, MultiError, ExcludeRequestBody, ExcludeRequestQueryParams, both excludes+MultiError, body-reading callback, no AuthenticationFunc). The model is boolean: each part has an independently controlled rendering. Distinct = full case tuple; non-trivial = the model value depends on at least two parts (at least two of security/params/body are constrained).",
+		Rule: "exhaustive over: operation security in 11 shapes (absent, [], [{}], single, conjunction, alternatives, undeclared scheme, mixes) x document security in 6 shapes x 4 callback outcome assignments (A,B ok/fail) x parameter layout (none / operation overrides path-level query q with another type / operation declares q in another location) x renderings good/bad/absent of path-level q (query), path-level X-H (header, required), operation r (query, required) x body good/bad/absent x body required or not x 7 option sets (default, MultiError, ExcludeRequestBody, ExcludeRequestQueryParams, both excludes+MultiError, body-reading callback, no AuthenticationFunc). The model is boolean: each part has an independently controlled rendering. Then PRNG-drawn operations (1,500 quick / 150,000 thorough, 8 requests each): up to 3 requirements over 4 declared schemes (apiKey header/query, http bearer, oauth2 with scopes) and an undeclared one at document and operation level, integer parameters p,q in query/header/cookie and the path variable at path level, pattern-typed ones at operation level (overrides by (in,name), decoys in other locations), renderings 5 / x / XX / absent per parameter, body good/bad/absent, independent callback outcome per scheme, random combinations of MultiError, ExcludeRequestBody, ExcludeRequestQueryParams, body-reading callback, no AuthenticationFunc; same boolean model. Distinct = full case tuple; non-trivial = the model value depends on at least two parts (at least two of security/params/body are constrained).",
 		Assumptions: []string{
 			"reference: requirements = operation's if declared else document's; empty list or empty requirement passes; a requirement passes iff all its schemes are declared and accepted; effective parameters = operation's + path-level ones not overridden by (in,name)",
 			"in MultiError mode each failing part yields one member identifiable as security / parameter(in,name) / body",
 		},
 		Shards:     func(string) int { return 16 },
-		Exhaustive: func(string) bool { return true },
 		Run:        runC07,
 	})
 }
@@ -186,6 +185,7 @@ func runC07(c *core.Ctx) {
 			}
 		}
 	}
+	runC07Random(c, &idx)
 }
 
 type c07opt struct {
